@@ -18,13 +18,13 @@ import (
 // real FIFOs and a regular output file.
 
 type daemon struct {
-	dir            string
-	cmd            *exec.Cmd
-	sshdW, auditW  *os.File
-	outPath        string
-	exited         chan struct{}
-	exitCode       int
-	waitErr        error
+	dir           string
+	cmd           *exec.Cmd
+	sshdW, auditW *os.File
+	outPath       string
+	exited        chan struct{}
+	exitCode      int
+	waitErr       error
 }
 
 const exitBound = 8 * time.Second
